@@ -163,6 +163,12 @@ def random_table(rng, n=None, nrows=None, p_empty=0.15):
         reversible = two_way or (arity >= 1 and rng.random() < 0.3)
         rows.append([parent, children, shifts, bool(two_way), bool(reversible)])
     empties = [x for x in range(n) if rng.random() < p_empty]
+    # honesty: a rule that is left with a single non-empty child is an equivalence and
+    # must not shift it (a class cannot equal a shifted copy of another one)
+    for row in rows:
+        nonempty = [i for i, c in enumerate(row[1]) if c not in empties]
+        if len(nonempty) == 1:
+            row[2][nonempty[0]] = 0
     return {"n": n, "rows": rows, "empties": empties}
 
 
